@@ -5,5 +5,5 @@ DocMode = FALSE
 Vocab <- VocabSmall
 TextKinds <- TK3
 OptSets <- Opts4
-INVARIANTS BuilderSound DesignRefines
+INVARIANTS BuilderSound DesignRefines EmitToks
 CHECK_DEADLOCK FALSE
